@@ -223,7 +223,7 @@ func init() {
 			*p = args[1]
 			return nil
 		},
-		"sync/atomic.LoadInt32": func(fr *frame, args []value) value { return *args[0].(*value) },
+		"sync/atomic.LoadInt32": func(fr *frame, args []value) value { cur.access(args[0].(*value), false, true); return *args[0].(*value) },
 		"sync/atomic.AddInt32": func(fr *frame, args []value) value {
 			p := args[0].(*value)
 			cur.logStore(p)
@@ -579,6 +579,92 @@ func init() {
 		return iface{}
 	}
 	harnessExternals["vFileClosed"] = func(fr *frame, args []value) value { return cur.fileClosed }
+}
+
+// sync/atomic: the remaining Load/Store/Swap/CompareAndSwap/Add functions on a cell (the executor is
+// single-threaded, so every operation is trivially atomic; the access log records them as atomic).
+func init() {
+	type kind struct {
+		name string
+		t    types.Type
+	}
+	kinds := []kind{{"Int32", types.Typ[types.Int32]}, {"Int64", types.Typ[types.Int64]}, {"Uint32", types.Typ[types.Uint32]},
+		{"Uint64", types.Typ[types.Uint64]}, {"Uintptr", types.Typ[types.Uintptr]}, {"Pointer", types.Typ[types.UnsafePointer]}}
+	for _, k := range kinds {
+		k := k
+		set := func(name string, f func(fr *frame, args []value) value) {
+			if _, ok := externals[name]; !ok {
+				externals[name] = f
+			}
+		}
+		set("sync/atomic.Load"+k.name, func(fr *frame, args []value) value {
+			p := args[0].(*value)
+			cur.access(p, false, true)
+			return *p
+		})
+		set("sync/atomic.Store"+k.name, func(fr *frame, args []value) value {
+			p := args[0].(*value)
+			cur.access(p, true, true)
+			cur.logStore(p)
+			*p = args[1]
+			return nil
+		})
+		set("sync/atomic.Swap"+k.name, func(fr *frame, args []value) value {
+			p := args[0].(*value)
+			cur.access(p, true, true)
+			old := *p
+			cur.logStore(p)
+			*p = args[1]
+			return old
+		})
+		set("sync/atomic.CompareAndSwap"+k.name, func(fr *frame, args []value) value {
+			p := args[0].(*value)
+			cur.access(p, true, true)
+			if equals(k.t, *p, args[1]) {
+				cur.logStore(p)
+				*p = args[2]
+				return true
+			}
+			return false
+		})
+		if k.name != "Pointer" {
+			set("sync/atomic.Add"+k.name, func(fr *frame, args []value) value {
+				p := args[0].(*value)
+				cur.access(p, true, true)
+				cur.logStore(p)
+				*p = binop(token.ADD, k.t, *p, args[1])
+				return *p
+			})
+		}
+	}
+	// atomic.Value: struct{ v any }
+	valCell := func(a value) *value { return &(*a.(*value)).(structure)[0] }
+	externals["(*sync/atomic.Value).Load"] = func(fr *frame, args []value) value {
+		c := valCell(args[0])
+		cur.access(args[0].(*value), false, true)
+		if it, ok := (*c).(iface); ok {
+			return it
+		}
+		return iface{}
+	}
+	externals["(*sync/atomic.Value).Store"] = func(fr *frame, args []value) value {
+		cur.access(args[0].(*value), true, true)
+		c := valCell(args[0])
+		cur.logStore(c)
+		*c = args[1]
+		return nil
+	}
+	externals["(*sync/atomic.Value).Swap"] = func(fr *frame, args []value) value {
+		cur.access(args[0].(*value), true, true)
+		c := valCell(args[0])
+		old := *c
+		cur.logStore(c)
+		*c = args[1]
+		if it, ok := old.(iface); ok {
+			return it
+		}
+		return iface{}
+	}
 }
 
 // sync.Map: contract model as a per-path table (keys are concretised), so that caches a change
